@@ -16,6 +16,7 @@ func initWorlds() {
 	worlds["C13"] = &algWorld{}
 	worlds["C14"] = &enumWorld{}
 	worlds["C16"] = &scribbleWorld{}
+	worlds["C18"] = &concWorld{}
 	worlds["C17"] = &hostileWorld{}
 	worlds["C15"] = &histWorld{prop: "C15", tags: []string{"C15"}, kinds: allKinds, c15: true, minOps: 8}
 }
